@@ -495,6 +495,7 @@ class Net:
         self.on_event = None
         self.on_listen = None   # callable(stage, port) at each start-up suspension point
         self.conn_policy = None
+        self.next_conn_latency = None
         self.bind_faults = {}   # port -> list of errno|None consumed per attempt
         self.bind_log = []
         self._next_port = 40000
@@ -559,6 +560,9 @@ class Net:
         self.conns.append(conn)
         if self.conn_policy is not None:
             self.conn_policy(conn)
+        if self.next_conn_latency is not None:
+            conn.latency = self.next_conn_latency
+            self.next_conn_latency = None
         cport = self._next_cport
         self._next_cport += 1
         client = SimTransport(self, conn, "connect")
